@@ -1039,6 +1039,13 @@ Proof.
     rewrite (lstrip_app_ws _ _ Hw), (lstrip_unsafe_prefix _ _ Hin). apply is_prefix_spec. eauto.
 Qed.
 
+Theorem unsafe_import_all_routes r text :
+  fst (import_text r text) = oct_of_text text /\
+  (snd (import_text r text) = true <-> starts_with_unsafe text).
+Proof.
+  destruct r; simpl; (split; [reflexivity | apply unsafe_import_iff]).
+Qed.
+
 (* leading whitespace is looked behind; a byte-order mark and DER are not *)
 Lemma unsafe_prefix_gap :
   oct_import_warns (asc " -----BEGIN PUBLIC KEY-----") = true /\
